@@ -29,7 +29,7 @@ Bodies == {B("none", 0, 0, 0, << >>)}
           \cup {B("append", n, 3, 0, << >>) : n \in Sizes}
           \cup {B("stream", n, 0, n, << >>) : n \in Sizes}          \* declared length = n
           \cup {B("stream", n, 0, -1, << >>) : n \in Sizes}         \* unknown length
-          \cup {B("limited", n, 0, -1, << >>) : n \in Sizes \ {0}}  \* io.LimitedReader
+          \cup {B("limited", n, 0, -1, << >>) : n \in Sizes}         \* io.LimitedReader (also one that is empty)
           \cup {B("file", n, 0, 0, << >>) : n \in Sizes \ {0}}
           \cup {B("chunkedWriter", 0, 0, 0, ops) : ops \in {<< >>, <<5>>, <<5, 0, 7>>, <<1, 1, 0, 1, 0>>, <<0, 4096, 1>>, <<4097, 0>>}}
 
